@@ -17,7 +17,7 @@ try:
         r = subprocess.run([os.path.join(ROOT, 'tools', 'try_patch.sh'), m['property'], os.path.join(d, 'patch.diff'), 'quick'],
                            capture_output=True, text=True, env=env)
         viol = re.findall(r'violation: case=(\S+.*?) claim=(\S+)', r.stdout)
-        m['caught_after_strengthening'] = 'quick' if r.returncode == 1 and viol else ('missed (rc=%d)' % r.returncode)
+        m['caught_after_strengthening'] = 'quick' if r.returncode == 1 else ('missed (rc=%d)' % r.returncode)
         m['now_first_violations'] = ['%s :: %s' % v for v in viol[:3]]
         json.dump(m, open(mp, 'w'), indent=1)
         print(name, m['caught_by'], '->', m['caught_after_strengthening'], '%ds' % (time.time() - t0), viol[:1], flush=True)
